@@ -107,6 +107,7 @@ World *build_probe(const J &plan)
 	for (auto &m : w->cfg["models"].a) ms->add(m.gets("name"), m);
 	w->add(new C09Probe(w));
 	w->add(mk_c14_ledger(w, false));
+	w->add(mk_probes(w));
 	w->sig = "probe|" + w->cfg.gets("probe_qtype") + "/" + (w->cfg.gets("probe_downenc").empty() ? "default" : w->cfg.gets("probe_downenc")) + (w->cfg.geti("probe_fill") > 40 ? "/longname" : "/shortname");
 	World *ww = w;
 	w->result_hooks.push_back([ww](J &r) { r.set("nontriv", ww->probes["c09.exact"] >= 5); });
